@@ -99,6 +99,7 @@ def build_lib(variant):
 
 def driver_hash(src_rel):
     files = [os.path.join(HARNESS, src_rel)]
+    files += glob.glob(os.path.join(HARNESS, os.path.dirname(src_rel), "*.h"))
     for sub in ("common", "oracle"):
         files += [p for p in glob.glob(os.path.join(HARNESS, sub, "*")) if os.path.isfile(p)]
     return _hash_files(files)
